@@ -112,7 +112,7 @@ func init() {
 			"distinct = tally situations (n, min, accepts, rejects, stale?, outcome) observed; non-trivial = case in which >=1 order reached a terminal state",
 		Cases: func(tier string) int { return c03EnumCases(tier) + c03BiasedCases(tier) + c03RandomCases(tier) },
 		Run:   runC03,
-		Need:  []string{"orders_completed", "orders_terminal", "sequences"},
+		Need:  []string{"orders_completed", "orders_terminal", "sequences", "ok_MsgUndPurchaseOrder", "ok_MsgProcessUndPurchaseOrder", "ok_MsgWhitelistAddress"},
 		Assumptions: []string{"signer lists are generated without duplicates (the statement's signer count is ambiguous for duplicates)",
 			"'the decision time limit has passed' is elapsed >= limit in whole seconds of block time; signers/purchasers are compared as decoded addresses"},
 	})
